@@ -473,21 +473,21 @@ def rule_h(ctx):
 
 
 def run(ctx):
-    rule_h(ctx)
+    ctx.guard(rule_h, ctx)
     from . import c02 as _c02
     from .common import shared as _shared
 
     _shared(ctx, "C03.c", _c02.rule_d, why="the integral of a stacked series equals the integrals of its members, per time step, only if Image.append / stack keep every slice's data as it is")
     from .common import rule_abs_tolerance
-    rule_abs_tolerance(ctx, "C03.g", [f for k in ctx.model.mod(MOD).classes.values() for f in k.methods.values()], "normalised integrals must be equal at every scale of the data")
+    ctx.guard(rule_abs_tolerance, ctx, "C03.g", [f for k in ctx.model.mod(MOD).classes.values() for f in k.methods.values()], "normalised integrals must be equal at every scale of the data")
     if _integrate_uses_resize(ctx.model):
         from . import c11
         from .common import shared
 
         shared(ctx, "C03.c", c11.rule_i, why="integrate resizes the voxel volumes through darsia.Resize and relies on its area interpolation to conserve the weighted sum")
-    rule_a(ctx)
-    rule_b(ctx)
-    rule_c(ctx)
-    rule_d(ctx)
-    rule_e(ctx)
-    rule_f(ctx)
+    ctx.guard(rule_a, ctx)
+    ctx.guard(rule_b, ctx)
+    ctx.guard(rule_c, ctx)
+    ctx.guard(rule_d, ctx)
+    ctx.guard(rule_e, ctx)
+    ctx.guard(rule_f, ctx)
